@@ -67,6 +67,10 @@ def render(e):
         return "(lambda %s: %s)(%s)" % (e[1], render(e[2]), render(e[3]))
     if k == "raw":
         return e[1]         # literal source (differential checks only: the reference does not evaluate it)
+    if k == "thennone":
+        return "((%s), None)[1]" % render(e[1])         # evaluates e, answers None
+    if k == "isnone":
+        return "(1 if (%s) is None else 0)" % render(e[1])
     if k == "fail":
         return "_fail(%r)" % (e[1],)
     if k == "try":
@@ -192,6 +196,8 @@ def walk(e):
         yield from walk(e[2])
     elif k == "try":
         yield from walk(e[1]); yield from walk(e[2])
+    elif k in ("thennone", "isnone"):
+        yield from walk(e[1])
 
 
 def global_names(e):
